@@ -195,14 +195,77 @@ void native_mixed(char const* desc)
     t.emit();
 }
 
+// a cnl::constant<N> on one side of a native-tag wrapper: W(a) op constant<N> and constant<N> op W(a) vs a op N (value and result type)
+template<class W, class T, int Oper, auto N>
+void native_const(char const* desc)
+{
+    if (!kernel_selected(desc)) return;
+    Tally t(desc);
+    Rng rng(mix(env_seed(), hash_str(desc)));
+    auto as = values_for<T>();
+    size_t na = as.size();
+    if (width_of<T> > 8) for (int i = 0; i < 200; ++i) as.push_back(rand_val<T>(rng));
+    using T2 = std::remove_cv_t<decltype(N)>;
+    using P = decltype(T{} + T2{});
+    constexpr T2 b = N;
+    for (size_t i = 0; i < as.size() && !t.closed; ++i) {
+        T a = as[i];
+        X A = X::of(a), B = X::of(b);
+        bool def = true;
+        if (Oper == ADD) def = !is_sgn<P> || (fits<P>(A + B));
+        else if (Oper == SUB) def = !is_sgn<P> || (fits<P>(A - B) && fits<P>(B - A));
+        else if (Oper == MUL) def = !is_sgn<P> || fits<P>(A * B);
+        else if (Oper == DIV || Oper == MOD) def = !A.zero() && !B.zero() && !(is_sgn<P> && ((A == xmin<P>() && B == X::from_i(-1)) || (B == xmin<P>() && A == X::from_i(-1))));
+        if (!def) { ++t.ood; continue; }
+        int rc = 0;
+        std::string got, want;
+        Outcome o = guarded([&] {
+            W wa(a);
+            constexpr cnl::constant<N> c{};
+            auto both = [&](auto const& r1, auto const& e1, auto const& r2, auto const& e2) {
+                int c1 = same(r1, e1), c2 = same(r2, e2);
+                rc = c1 ? c1 : c2;
+                got = istr(r1) + "," + istr(r2);
+                want = istr(e1) + "," + istr(e2);
+            };
+#define VF_MIX(OP) both(cnl::unwrap(wa OP c), (a OP b), cnl::unwrap(c OP wa), (b OP a));
+            if constexpr (Oper == ADD) VF_MIX(+)
+            else if constexpr (Oper == SUB) VF_MIX(-)
+            else if constexpr (Oper == MUL) VF_MIX(*)
+            else if constexpr (Oper == DIV) VF_MIX(/)
+            else if constexpr (Oper == MOD) VF_MIX(%)
+            else if constexpr (Oper == AND) VF_MIX(&)
+            else if constexpr (Oper == OR) VF_MIX(|)
+            else if constexpr (Oper == XOR) VF_MIX(^)
+            else if constexpr (Oper == LT) VF_MIX(<)
+            else if constexpr (Oper == LE) VF_MIX(<=)
+            else if constexpr (Oper == GT) VF_MIX(>)
+            else if constexpr (Oper == GE) VF_MIX(>=)
+            else if constexpr (Oper == EQ) VF_MIX(==)
+            else VF_MIX(!=)
+#undef VF_MIX
+        });
+        bool nt = i < na && is_boundary(a);
+        auto in = [&] { return istr(a) + " " + opname(Oper) + " constant<" + istr(b) + "> (wrapper op constant, constant op wrapper)"; };
+        if (o.kind == VALUE && rc == 0) {
+            t.held(o, nt);
+            t.sample(nt, in, [&] { return want; }, [&] { return got; });
+        } else
+            t.violation(o.kind != VALUE ? kind_name(o.kind) : rc == 2 ? "result_type_differs_from_builtin" : "value_differs_from_builtin", o, in(), want, outcome_str(o, got), nt);
+    }
+    t.emit();
+}
+
 // documented fixed-point kernels vs their hand-written shift-and-operate twins
-enum Kern { MULWIDEN, MIXADD, AVERAGE, SQUARE, INCDEC, MIXCMP };
-template<class T, int E1, int E2, int K>
+enum Kern { MULWIDEN, MIXADD, AVERAGE, SQUARE, INCDEC, MIXCMP, MIXSUB, MIXOR };
+template<class T, int E1, int E2, int K, int Radix = 2>
 void fixedpoint(char const* desc)
 {
     if (!kernel_selected(desc)) return;
-    using A = cnl::scaled_integer<T, cnl::power<E1>>;
-    using B = cnl::scaled_integer<T, cnl::power<E2>>;
+    using A = cnl::scaled_integer<T, cnl::power<E1, Radix>>;
+    using B = cnl::scaled_integer<T, cnl::power<E2, Radix>>;
+    // the hand-written twin aligns the coarser operand by multiplying with Radix^k (a shift for radix 2)
+    auto shl = [](X const& v, int k) { return v * c01::xipow(Radix, k); };
     using P = promoted_t<T>;
     Tally t(desc);
     Rng rng(mix(env_seed(), hash_str(desc)));
@@ -221,6 +284,13 @@ void fixedpoint(char const* desc)
                 constexpr int sh = E2 > E1 ? E2 - E1 : E1 - E2;
                 X sa = E1 > E2 ? shl(xa, sh) : xa, sb = E2 > E1 ? shl(xb, sh) : xb;
                 want = sa + sb; def = fits<P>(sa) && fits<P>(sb) && fits<P>(want); wexp = E1 < E2 ? E1 : E2;
+            } else if (K == MIXSUB || K == MIXOR) {
+                constexpr int sh = E2 > E1 ? E2 - E1 : E1 - E2;
+                X sa = E1 > E2 ? shl(xa, sh) : xa, sb = E2 > E1 ? shl(xb, sh) : xb;
+                def = fits<P>(sa) && fits<P>(sb);
+                if (K == MIXSUB) { want = sa - sb; def = def && fits<P>(want); }
+                else if (def) want = X::of((P)(c01::from_x<P>(sa) | c01::from_x<P>(sb)));
+                wexp = E1 < E2 ? E1 : E2;
             } else if (K == AVERAGE) { want = tdiv(xa + xb, X::from_u(2)); def = fits<P>(xa + xb); wexp = E1; }
             else if (K == MIXCMP) {
                 // hand-written twin: align the coarser operand with a shift, then compare the ints (all six operators packed into one number)
@@ -241,6 +311,8 @@ void fixedpoint(char const* desc)
                 if constexpr (K == MULWIDEN) { auto r = a * b; got = c01::deepval(r); gexp = cnl::_impl::tag_of_t<decltype(r)>::exponent; extra = std::is_same_v<std::remove_cvref_t<decltype(cnl::_impl::to_rep(r))>, decltype(ra * rb)>; }
                 else if constexpr (K == SQUARE) { auto r = a * a; got = c01::deepval(r); gexp = cnl::_impl::tag_of_t<decltype(r)>::exponent; }
                 else if constexpr (K == MIXADD) { auto r = a + b; got = c01::deepval(r); gexp = cnl::_impl::tag_of_t<decltype(r)>::exponent; }
+                else if constexpr (K == MIXSUB) { auto r = a - b; got = c01::deepval(r); gexp = cnl::_impl::tag_of_t<decltype(r)>::exponent; }
+                else if constexpr (K == MIXOR) { auto r = a | b; got = c01::deepval(r); gexp = cnl::_impl::tag_of_t<decltype(r)>::exponent; }
                 else if constexpr (K == AVERAGE) { auto r = (a + cnl::_impl::from_rep<A>(rb)) / 2; got = c01::deepval(r); gexp = cnl::_impl::tag_of_t<decltype(r)>::exponent; }
                 else if constexpr (K == MIXCMP) { got = X::from_i((a < b) * 1 + (a <= b) * 2 + (a > b) * 4 + (a >= b) * 8 + (a == b) * 16 + (a != b) * 32); gexp = 0; }
                 else {
